@@ -43,6 +43,12 @@ def estep_post(ctx):
     rest = [c for c in out if not any(c.name.endswith("." + f) or c.name.endswith("." + f + ".shape")
                                       for f in ("t", "n", "sum_px", "sum_pxx", "log_likelihood"))]
     res += collapse(rest, "C02.estep.frame", "shape fields set, machine unchanged (except the lazy normaliser cache), definedness")
+    # samples stored in an integer dtype of unknown width: same statistics, and no product/sum is formed in that dtype
+    I = new_interp(LWL)
+    cl = K.check_function(I, "gmm.e_step", lambda: ([G.mk_data(intdata=True), G.mk_gmm(I)], {}),
+                          G.spec_e_step, G.facts(), "C02.estep.int", result_name="", state_names={1: "machine"})
+    res += collapse(cl, "C02.estep.intdata", "integer-typed samples (uint8, int16, ...): every moment is accumulated in float64 -- "
+                                             "no arithmetic is carried out in the samples' own integer dtype")
     return res
 
 
